@@ -4,11 +4,11 @@
 EXTENDS Merkle, SequencesExt, Json, IOUtils
 CONSTANT N
 Traces == JsonDeserialize(IOEnv.TRACE_FILE)
-VARIABLES tid, l, cache
-vars == <<tid, l, cache>>
-Src == Leaves(N)
+VARIABLES tid, l, cache, src, gen
+vars == <<tid, l, cache, src, gen>>
+Src == src
 Nil == [len |-> 0, dh |-> 0, level |-> <<>>]
-Init == tid \in 1..Len(Traces) /\ l = 1 /\ cache = Nil
+Init == tid \in 1..Len(Traces) /\ l = 1 /\ cache = Nil /\ src = Leaves(N) /\ gen = 0
 Steps == Traces[tid].steps
 Same(e, c) == e.len = c.len /\ e.dh = c.dh /\ e.level = c.level
 Next ==
@@ -17,7 +17,10 @@ Next ==
          c == IF e.op = "init" THEN CInit(Src, e.a)
               ELSE IF e.op = "ext" THEN CExtendTo(cache, Src, e.a)
               ELSE CTruncate(cache, e.a)
-     IN Same(e, c) /\ cache' = c
+     IN /\ Same(e, c) /\ cache' = c
+        /\ IF e.op = "trunc" /\ e.chg
+           THEN gen' = gen + 1 /\ src' = [k \in 1..N |-> IF k <= e.a THEN src[k] ELSE Leaf(k + 100 * (gen + 1))]
+           ELSE UNCHANGED <<src, gen>>
 Spec == Init /\ [][Next]_vars
 NotStuck == l <= Len(Steps) => ENABLED Next
 =============================================================================
